@@ -116,14 +116,25 @@ def pre(repo):
     wake_extract.check(repo)
 
 
+def _numeric(gen):
+    """the lock word `rw` packs three 21-bit counts: with a crowd of waiters its value can coincide
+    with a heap address; tell the runtime never to print it as a pointer"""
+    def g(rng, tier):
+        cs = gen(rng, tier)
+        for c in cs:
+            c["env"]["VR_NUMCELLS"] = "rw"
+        return cs
+    return g
+
+
 SPEC = {
     "C07": {
         "pre": pre,
-        "parts": [{"name": "rwlock", "harness": "rwlock", "model": "RwLock", "runtime": True, "gen": gen,
+        "parts": [{"name": "rwlock", "harness": "rwlock", "model": "RwLock", "runtime": True, "gen": _numeric(gen),
                    "post": post,
                    "nontrivial": lambda s: (s["hist"].get("xchg RT", 0) + s["hist"].get("xchg WT", 0)) >= 1},
                   # the operation may legitimately wait for ever / pop an empty queue for ever here
-                  {"name": "rwword", "harness": "rwword", "model": "RwWord", "runtime": True, "gen": gen_word,
+                  {"name": "rwword", "harness": "rwword", "model": "RwWord", "runtime": True, "gen": _numeric(gen_word),
                    "ok_status": ("OK", "HANG", "BUDGET"),
                    "nontrivial": lambda s: s["hist"].get("cas rw", 0) >= 1}],
         "rule": "part rwword: one operation on a planted arbitrary state word, CAS operands and continuation compared with the model's pure word functions; part rwlock: cases = (script of 2-6 fibers doing rdlock/wrlock/tryrdlock/trywrlock each followed by the matching unlock, with a yield inside the critical section, 1-3 kernel threads, scheduler kind+seed) from VERIF_SEED; distinct = different (script, sha1 of access sequence); non-trivial = at least one waiter was enqueued on read_waiters or write_waiters",
